@@ -80,7 +80,7 @@ class Spec:
 
 
 KEYS = ["top", "s1block", "s1indent", "s2block", "s2indent", "action1", "actionbrace", "actionbrace3", "actionblock", "actionor", "eofaction", "sect3",
-        "scoped", "afterx", "aftercomment", "trail", "contaction", "s1block2", "sect3b", "s2flush", "s2mid", "strcont", "longline"]
+        "scoped", "afterx", "aftercomment", "trail", "contaction", "s1block2", "sect3b", "s2flush", "s2mid", "strcont", "longline", "ordollar1", "ordollar2"]
 KEYNUM = {k: i for i, k in enumerate(KEYS)}
 
 API_MAIN = {
@@ -123,6 +123,13 @@ def build_spec(api, feats, payload_at=None):
     S.add("static void vf_rec(int k, int line, const char *s, int c) { if (!vf_seen[k]) { vf_seen[k] = 1; vf_line[k] = line; vf_str[k] = s; vf_chr[k] = c; } }")
     if "blank" in feats:
         S.add("")
+    for f in sorted(feats):
+        if f.startswith("exactline:"):
+            # a user-code line of exactly N bytes in front of every generated-code directive: the filter that renumbers those
+            # directives reads the output in fixed-size pieces (round-5 seed C20-r5m3)
+            n = int(f.split(":")[1])
+            head, tail = "static const char vf_pad[] = \"", "\";"
+            S.add(head + "x" * (n - len(head) - len(tail)) + tail)
     S.probe_file("s1block", *pay("s1block"))
     S.add("%}")
     if "defs" in feats:
@@ -192,6 +199,15 @@ def build_spec(api, feats, payload_at=None):
         S.add("e    |")
         n = S.add("f    " + S.stmt("actionor", *pay("actionor")))
         S.probes["actionor"] = n
+    if "ordollar" in feats:
+        # '$' rules next to '|' actions: the parser reduces 're$' before the scanner has seen what follows (round-5 seed C20-r5m1)
+        S.add("u    |")
+        n = S.add("v$   { " + S.stmt("ordollar1"))
+        S.probes["ordollar1"] = n
+        S.add("       (void)0; }")
+        S.add("w$   |")
+        n = S.add("x    " + S.stmt("ordollar2"))
+        S.probes["ordollar2"] = n
     if "scope" in feats:
         S.add("r    yybegin(XC);")
         S.add("<XC>{")
@@ -258,7 +274,7 @@ def build_spec(api, feats, payload_at=None):
         S.add("        ((a) + \\")
         S.add("         (b))")
         S.probe_file("sect3b")
-    S.add("static const char vf_input[] = \"a b c d e f k n op p\\nq lm hij s t rg \";")
+    S.add("static const char vf_input[] = \"a b c d e f k n op p\\nq lm hij s t rg u x v\\n\";")
     S.add("static void vf_hex(const char *s) { if (!s) { printf(\"-\"); return; } printf(\"x\"); while (*s) printf(\"%02x\", (unsigned char)*s++); }")
     S.add("int main(void) {")
     S.add("    int k;")
@@ -416,7 +432,7 @@ def run_one(job):
 
 
 LAYOUT_FEATS = ["blank", "top", "defs", "indent", "s2block", "multiline", "pctaction", "oraction", "scope", "xpattern", "pcomment", "trail", "contaction", "eof",
-                "two_blocks", "sect3b", "twofiles", "s2flush", "s2mid", "strcont", "longline"]
+                "two_blocks", "sect3b", "twofiles", "s2flush", "s2mid", "strcont", "longline", "ordollar"]
 BASE_FEATS = ["top", "defs", "eof"]
 
 
@@ -458,6 +474,9 @@ def run(tier):
                 jobs.append(dict(api=api, feats=list(sub), cli=cli))
             if len(sub) <= 1 or len(sub) == len(LAYOUT_FEATS):
                 jobs.append(dict(api=api, feats=list(sub) + ["noline_opt"]))
+    # user-code lines whose length sits at the piece size of the directive-renumbering filter (4096-byte reads) and its multiples
+    for n in list(range(4088, 4102)) + list(range(8183, 8196)) + ([] if quick else list(range(2040, 2052)) + list(range(12278, 12290))):
+        jobs.append(dict(api="nr", feats=["exactline:%d" % n]))
     nlay = len(jobs) - npay
     nprobes = ndirs = 0
     distinct = set()      # distinct (region, payload, carrier) triples and layout subsets that ran clean (measured)
